@@ -8,6 +8,9 @@ CONSTANTS
   DescCmds = {"cmd", "stop", "_stop"}
   Wires = {"w1", "wbad"}
   ValidW = {"w1"}
+  ValidWB = {}
+  Variants = {"a"}
+  OtherDescs = {}
   ENames = {"HardwareError", "Bogus"}
   KnownE = {"HardwareError"}
   Texts = {"tp"}
@@ -35,4 +38,5 @@ INVARIANT ReleasedSeesNew
 PROPERTY Ignored
 PROPERTY ExactlyOnce
 PROPERTY Frame
+PROPERTY Isolation
 CHECK_DEADLOCK FALSE
